@@ -122,6 +122,10 @@ func (p *Program) checkFieldTable(r *Report, rel, typ string, table map[string]f
 					ok = p.heldEntry[a.Fn][lk] >= 1
 				}
 				why := fmt.Sprintf("%s of %s (guarded by %s) with held=%s", a.Kind, constr, lk.Name(), a.Held.names())
+				if ok && a.Stale && mode >= 1 {
+					r.add(fmt.Sprintf("%s %s in %s", constr, a.Kind, fnName(a.Fn)), a.In.Pos(), "violated", why+": the reference was obtained in an earlier critical section (the guard was released in between): the container may have been replaced or emptied meanwhile, the use acts on a stale object", true)
+					continue
+				}
 				if !ok {
 					r.add(fmt.Sprintf("%s %s in %s", constr, a.Kind, fnName(a.Fn)), a.In.Pos(), "violated", why+": lock not held (or only read-held for a write, or a guarded reference used/escaping outside the critical section)", true)
 				} else {
